@@ -192,7 +192,7 @@ fn grammar_pass(thorough: bool) -> (u64, u64, BTreeMap<String, u64>, Vec<Violati
 fn reply_sweep(thorough: bool) -> (u64, Vec<Violation>) {
     use crate::c03::*;
     use crate::refmodel::*;
-    let atoms = ["1", "0", "-", "+", ".", "e", "\"", ",", ":", " ", "x", "\u{e9}", "nan"];
+    let atoms = ["1", "0", "-", "+", ".", "e", "\"", ",", ":", " ", "x", "\u{e9}", "5"];
     let n = if thorough { 5 } else { 4 };
     let base = atoms.len() as u64;
     let targets: Vec<LVal> = vec![lv("X"), lv("Y$"), lvi("A", vec![num(2.0)])];
